@@ -1105,6 +1105,157 @@ def subobject_alias(doc, log):
                 log.append("%s: %d reads of self.%s.{%s} read the owner's own copy of the same constructor value" % (owner, n[0], F, ",".join(sorted(alias))))
 
 
+# ----------------------------------------------------------------------------------------------
+# 10. channel loops written as a zip of the per-channel containers
+#     for ((buf, wave), _) in A.iter_mut().zip(B.iter()).zip(MASK.iter()).filter(|(_, active)| **active) { .. buf .. wave .. }
+#     is the index loop  for (chan, active) in MASK.iter().enumerate() { if *active { .. A[chan] .. B[chan] .. } }
+#     (the containers all hold one element per channel - R-C03-chan - so the zip stops nowhere earlier than the index loop)
+
+
+def _flatten_zip_pat(p, n):
+    if n == 1:
+        return [p]
+    if p.get("k") == "pwild":
+        return [p] * n
+    if p.get("k") == "ptuple" and len(p["elems"]) == 2:
+        head = _flatten_zip_pat(p["elems"][0], n - 1)
+        return None if head is None else head + [p["elems"][1]]
+    return None
+
+
+def _whole_container(x):
+    """`X.iter()` / `X.iter_mut()` over a whole field of self or a whole parameter / local"""
+    if x.get("k") == "mcall" and x.get("name") in ("iter", "iter_mut") and not x.get("args"):
+        r = x["recv"]
+        if r.get("k") == "path" and "::" not in r["p"]:
+            return r
+        if r.get("k") == "field" and isinstance(r.get("e"), dict) and r["e"].get("k") == "path" and r["e"].get("p") == "self":
+            return r
+    return None
+
+
+def _subst_elem(n, name, cont, chan, ln, unchecked=False):
+    """replace the element variable `name` of a container loop by the element it denotes: `CONT[chan]`, or `CONT.get_unchecked(chan)` where the
+    code goes on with an unchecked access (the form the per-channel unchecked reads of this crate have)"""
+    if isinstance(n, list):
+        return [_subst_elem(x, name, cont, chan, ln) for x in n]
+    if not isinstance(n, dict):
+        return n
+    if n.get("k") == "path" and n.get("p") == name:
+        idx = {"k": "path", "p": chan, "g": None, "ln": ln}
+        if unchecked:
+            return {"k": "mcall", "recv": copy.deepcopy(cont), "name": unchecked, "tf": None, "args": [idx], "ln": ln}
+        return {"k": "index", "e": copy.deepcopy(cont), "i": idx, "ln": ln}
+    if n.get("k") == "mcall" and n.get("name") in ("get_unchecked", "get_unchecked_mut"):
+        out = dict(n)
+        out["recv"] = _subst_elem(n["recv"], name, cont, chan, ln, n["name"])
+        out["args"] = [_subst_elem(a, name, cont, chan, ln) for a in n.get("args") or []]
+        return out
+    if n.get("k") == "mcall" and n.get("name") in ("as_mut", "as_ref") and not n.get("args") and unchecked:
+        return dict(n, recv=_subst_elem(n["recv"], name, cont, chan, ln, unchecked))
+    return {k: (_subst_elem(v, name, cont, chan, ln) if isinstance(v, (dict, list)) else v) for k, v in n.items()}
+
+
+def dezip_channel_loops(doc, log):
+    counter = [0]
+
+    def try_rewrite(loop):
+        it = loop["iter"]
+        filt = None
+        if it.get("k") == "mcall" and it.get("name") == "filter" and len(it.get("args") or []) == 1 and it["args"][0].get("k") == "closure":
+            filt = it["args"][0]
+            it = it["recv"]
+        parts = []
+        while it.get("k") == "mcall" and it.get("name") == "zip" and len(it.get("args") or []) == 1:
+            parts.append(it["args"][0])
+            it = it["recv"]
+        parts.append(it)
+        parts.reverse()
+        if len(parts) < 2:
+            return None
+        conts = [_whole_container(p) for p in parts]
+        if any(c is None for c in conts):
+            return None
+        pats = _flatten_zip_pat(loop["pat"], len(parts))
+        if pats is None or any(p.get("k") not in ("pident", "pwild") for p in pats):
+            return None
+        body = loop["body"]["stmts"]
+        mask_pos = None
+        if filt is not None:
+            if len(filt.get("params") or []) != 1:
+                return None
+            fp = filt["params"][0]
+            if fp.get("k") == "pref":
+                fp = fp["p"]
+            fpats = _flatten_zip_pat(fp, len(parts))
+            if fpats is None:
+                return None
+            named = [i for i, p in enumerate(fpats) if p.get("k") == "pident"]
+            if len(named) != 1 or any(p.get("k") not in ("pident", "pwild") for p in fpats):
+                return None
+            b = filt["body"]
+            nd = 0
+            while isinstance(b, dict) and b.get("k") == "un" and b.get("op") == "*":
+                b = b["e"]
+                nd += 1
+            if not (isinstance(b, dict) and b.get("k") == "path" and b.get("p") == fpats[named[0]]["name"] and nd == 2):
+                return None
+            mask_pos = named[0]
+        else:
+            live = [s for s in body if not (s.get("k") in ("semi", "expr") and isinstance(s.get("e"), dict) and s["e"].get("k") == "macro" and s["e"].get("name") in ("debug_assert", "trace", "debug"))]
+            e0 = live[0].get("e") if len(live) == 1 and live[0].get("k") in ("semi", "expr") else None
+            if not (isinstance(e0, dict) and e0.get("k") == "if" and e0.get("else") is None and e0["c"].get("k") == "un" and e0["c"].get("op") == "*"
+                    and e0["c"]["e"].get("k") == "path"):
+                return None
+            hits = [i for i, p in enumerate(pats) if p.get("k") == "pident" and p["name"] == e0["c"]["e"]["p"]]
+            if len(hits) != 1:
+                return None
+            mask_pos = hits[0]
+        counter[0] += 1
+        chan = "chan__z%d" % counter[0]
+        active = pats[mask_pos]["name"] if pats[mask_pos].get("k") == "pident" else "active__z%d" % counter[0]
+        ln = loop.get("ln", 0)
+        env = {}
+        for i, p in enumerate(pats):
+            if i == mask_pos or p.get("k") != "pident":
+                continue
+            node = {"k": "index", "e": copy.deepcopy(conts[i]), "i": {"k": "path", "p": chan, "g": None, "ln": ln}, "ln": ln}
+            env[p["name"]] = (node, False, node)
+        # a use of the mask element other than `*active` (or the names being rebound in the body) is left alone: give up
+        names = set(env) | {active}
+        for x in walk(loop["body"]):
+            if x.get("k") in ("let", "for", "closure"):
+                bound = _pat_names(x.get("pat")) if x.get("k") != "closure" else [n for p in x.get("params") or [] for n in _pat_names(p)]
+                if names & set(bound):
+                    return None
+        new_body = copy.deepcopy(body)
+        for nm_, (node_, _, _) in env.items():
+            new_body = _subst_elem(new_body, nm_, node_["e"], chan, ln)
+        if filt is not None:
+            new_body = [{"k": "expr", "ln": ln, "e": {"k": "if", "ln": ln, "c": {"k": "un", "op": "*", "e": {"k": "path", "p": active, "g": None, "ln": ln}, "ln": ln},
+                                                      "then": {"k": "block", "stmts": new_body, "ln": ln}, "else": None}}]
+        mask_iter = {"k": "mcall", "recv": {"k": "mcall", "recv": copy.deepcopy(conts[mask_pos]), "name": "iter", "tf": None, "args": [], "ln": ln},
+                     "name": "enumerate", "tf": None, "args": [], "ln": ln}
+        pat = {"k": "ptuple", "ln": ln, "elems": [{"k": "pident", "name": chan, "mut": False, "byref": False, "sub": None, "ln": ln},
+                                                  {"k": "pident", "name": active, "mut": False, "byref": False, "sub": None, "ln": ln}]}
+        log.append("zipped channel loop at line %s rewritten as an index loop over %s" % (ln, nows(str(conts[mask_pos].get("name") or conts[mask_pos].get("p")))))
+        return dict(loop, pat=pat, iter=mask_iter, body=dict(loop["body"], stmts=new_body))
+
+    def rw(n):
+        if isinstance(n, list):
+            return [rw(x) for x in n]
+        if not isinstance(n, dict):
+            return n
+        n = {k: (rw(v) if isinstance(v, (dict, list)) else v) for k, v in n.items()}
+        if n.get("k") == "for":
+            r = try_rewrite(n)
+            if r is not None:
+                return r
+        return n
+    for fl in doc["files"]:
+        fl["items"] = rw(fl["items"])
+
+
 def normalise(doc):
     log = []
     canonical_fields(doc, log)
@@ -1117,6 +1268,7 @@ def normalise(doc):
     inline_helpers(doc, log)
     inline_expr_helpers(doc, log)
     subobject_alias(doc, log)
+    dezip_channel_loops(doc, log)
     sink_unsafe(doc, log)
     setter_guards(doc, log)
     doc["normalisation_log"] = log
